@@ -51,14 +51,39 @@ class Harness:
             if cls is None: final = 'sat'; break
         else:
             final = 'unknown'
+        xc = None
+        n = int(os.environ.get('VERIF_XCHECK', '0') or 0)
+        if n and not isinstance(prop, bool) and final in ('unsat', 'sat') and not hits and (hash(tuple(ctx.trace)) + len(res['verdicts'])) % n == 0:
+            xc = cross_check(ctx, z3.Not(prop), final)
         v = {'oblig': oblig, 'status': final if not hits else ('sat' if any(h['class'] is None for h in hits) else final),
              'witness': wit, 'hits': hits, 'info': info or {}}
         if hits and all(h['class'] is not None for h in hits) and final == 'unsat': v['status'] = 'unsat-modulo-known'
+        if xc: v['cross'] = xc
         res['verdicts'].append(v)
         return v
     def fail(self, ctx, res, oblig, what, classes=(), info=None):
         """the path itself is the violation (panic, non-termination): every input on it is a counterexample"""
         return self.oblige(ctx, res, oblig, False, classes, dict(info or {}, what=what))
+
+def cross_check(ctx, cond, expected):
+    """re-decide one exported query (SMT-LIB2) with z3 4.8.12 and cvc5; -> {solver: answer}"""
+    import subprocess, tempfile
+    txt = ctx.smt2(cond)
+    txt = '(set-logic ALL)\n' + '\n'.join(l for l in txt.split('\n') if not l.startswith('(set-info') and not l.startswith('; benchmark'))
+    out = {'expected': expected}
+    with tempfile.NamedTemporaryFile('w', suffix='.smt2', delete=False) as f:
+        f.write(txt); path = f.name
+    try:
+        for name, cmd in (('z3-4.8.12', ['/usr/bin/z3', '-T:20', path]), ('cvc5', ['cvc5', '--lang', 'smt2', '--tlimit=20000', path])):
+            try:
+                r = subprocess.run(cmd, stdout=subprocess.PIPE, stderr=subprocess.STDOUT, text=True, timeout=30)
+                ans = [l.strip() for l in r.stdout.split('\n') if l.strip() in ('sat', 'unsat', 'unknown')]
+                out[name] = 'error' if '(error' in r.stdout else (ans[0] if ans else 'no-answer')
+            except Exception as e:
+                out[name] = 'timeout'
+    finally:
+        os.unlink(path)
+    return out
 
 def concrete(it, fn):
     """run fn() on a fresh concrete path; -> ('ok', value) | ('panic', msg) | ('budget', msg)"""
@@ -138,6 +163,16 @@ def run_property(pid, harnesses, tier, seed, level='model_checking', assumptions
                 for hit in v['hits']: cand.append((v, hit, r))
                 cov['sat'] += len(v['hits']); cov['unsat'] += 1 if v['status'].startswith('unsat') else 0
         cov['obligations'] += nobl
+        xs = [v['cross'] for r in rs for v in r['verdicts'] if v.get('cross')]
+        if xs:
+            cs = cov.setdefault('cross_solver', {'queries': 0, 'agree': 0, 'inconclusive': 0, 'disagree': 0})
+            for x in xs:
+                cs['queries'] += 1
+                others = [x.get('z3-4.8.12'), x.get('cvc5')]
+                if any(o in ('sat', 'unsat') and o != x['expected'] for o in others):
+                    cs['disagree'] += 1; inconclusive.append('%s: cross-solver disagreement %r' % (h.name, x))
+                elif all(o == x['expected'] for o in others): cs['agree'] += 1
+                else: cs['inconclusive'] += 1
         hc['obligation_status'] = stat; hc['obligations'] = nobl
         hc['twin_negated_property_sat'] = nobl - nw if False else None
         hc['nonvacuous_obligations'] = nw
